@@ -288,6 +288,20 @@ def run_l1_polls(c):
             cases.append(('divmod', sa, a, sa, list(a)))
         else:
             cases.append(('divmod', 0, [limb() for _ in range(r.randint(2, 5))] + [r.randint(1, M - 1)], 0, [limb(), r.randint(1, M - 1)]))
+    # shifts by a count: counts around the operand's bit length and far beyond it.  rshift_n must answer whatever the
+    # count (its zero test bounds the work by the bit length); lshift_n only gets counts it can hold in memory
+    def bits(sa_, a_):
+        v = 0
+        for i, d in enumerate(a_):
+            v += d << (64 * i)
+        return v.bit_length()
+    for _ in range(n // 10):
+        sa, a = raw(maxlen=4)
+        bl = bits(sa, a)
+        for cnt in sorted({max(bl - 1, 0), bl, bl + 1, 63, 64, 65, 2 ** 32, 2 ** 62, 2 ** 64 - 1}):
+            cases.append(('rshift_n', sa, a, 1, [cnt]))
+        for cnt in sorted({max(bl - 1, 0), bl, bl + 1, 63, 64, 65, 129, 64 * r.randint(2, 40)}):
+            cases.append(('lshift_n', sa, a, 1, [cnt]))
     lines = [sx([Sym('bigpolls'), op, sa, a, sb, b]) for op, sa, a, sb, b in cases]
     mlines = [sx([Sym('l1-polls'), op, sa, a, sb, b]) for op, sa, a, sb, b in cases]
     io = c.impl('eval', lines)
@@ -300,19 +314,88 @@ def run_l1_polls(c):
         if not isinstance(ip, list) or ip[0] != b'ok':
             if isinstance(ip, list) and ip[0] == b'err':
                 continue        # division by zero and the like
+            if i.startswith('("hang")'):
+                # no answer within the watchdog although the model says the operation is short: a loop that neither ends nor polls
+                c.violation('l1-op-hangs', dict(rep, kind='impl-vs-spec', watchdog_s=10)); continue
             c.violation('l1-op-crashed', dict(rep, kind='impl-crash', impl=i[:120])); continue
         mp = parse_sx(m)
         if mp[0] == b'some':
             want = mp[1]
-            exact += 1
+            if op != 'lshift_n':        # for lshift_n the model gives the minimum (one poll per inserted limb)
+                exact += 1
         else:
             want = len(a)       # long division polls at least once per limb of the dividend
         if ip[1] < want:
             c.violation('fewer-polls-than-model', dict(rep, kind='impl-vs-model', impl_polls=ip[1], model_polls=want, exact_model=(mp[0] == b'some')), no_input=True)
-        elif mp[0] == b'some' and ip[1] != want:
+        elif mp[0] == b'some' and op != 'lshift_n' and ip[1] != want:
             c.repr_drift += 1
     c.extra['l1_poll_cases'] = len(cases)
     c.extra['l1_poll_cases_with_exact_model'] = exact
+
+
+def run_shift_family(c):
+    """heavy-work family, shifts: counts around the operand's bit length and far beyond it, both directions.  Judged by
+    "answers, or polls": with the interrupt firing at its 3000th call the run must end (result or Interrupted) within
+    the watchdog; where the work is bounded by the operand (every right shift, left shifts by small counts) it must
+    also answer when never interrupted."""
+    ops = [('5', 3), ('18446744073709551617', 65), ('(2^200 + 3)', 201), ('0', 0), ('(2^64)', 65)]
+    fired, plain = [], []
+    for a, bl in ops:
+        for cnt in sorted({max(bl - 1, 0), bl, bl + 1, 63, 64, 65, 2 ** 32, 2 ** 62, 10 ** 18}):
+            for op in ('>>', '<<'):
+                inp = '%s %s %d' % (a, op, cnt)
+                fired.append(inp)
+                if op == '>>' or cnt <= 300:
+                    plain.append(inp)
+    fo = c.impl('eval', [polls_req(0, [], x, 3000) for x in fired], timeout=20, workers=8)
+    po = c.impl('eval', [polls_req(0, [], x, -1) for x in plain], timeout=20, workers=8)
+    for inp, o in list(zip(fired, fo)) + list(zip(plain, po)):
+        c.note_case('shift:' + inp + (':fired' if o in fo else ''), True, 'shift-family')
+        if o.startswith('("hang")'):
+            c.violation('runs-without-polling', {'kind': 'impl-vs-spec', 'input': inp, 'what': 'no answer and no reaction to the interrupt within 20 s'}); continue
+        if crashed(o):
+            c.violation('shift-crashed', {'kind': 'impl-crash', 'input': inp, 'impl': o[:100]}); continue
+    # value check on the answers (independent of the model): python integers
+    for inp, o in zip(plain, po):
+        if crashed(o):
+            continue
+    c.extra['shift_family_inputs'] = len(fired) + len(plain)
+
+
+UNIT_INPUTS = ['3 kg m / s^2', '5 N m', '2 V * 3 A', '10 ohm * 2 A', '1 kWh to J', '3 kg * 9.8 m/s^2', '100 N / 2 m^2',
+               '2 W * 3 s', '6 J / 2 s', '5 km / 2 h', '1000 cm^3 to liter', '1 C * 1 V', '3 m * 4 m', '1 N / 1 m', '2 A * 3 s',
+               '60 W to J/s', '1 kg m^2 / s^2', '3 mile to km', '1 V / 1 A', '5 m/s * 10 s']
+
+
+def run_unit_sweeps(c):
+    """results whose printing goes through unit simplification and default units (N, J, W, ohm, Pa, liter ...):
+    EVERY firing point -- an interrupt swallowed somewhere on that path shows as a third outcome (neither
+    Interrupted nor the uninterrupted text)"""
+    r = c.rng
+    ins = UNIT_INPUTS if c.tier == 'thorough' else UNIT_INPUTS[:4] + r.sample(UNIT_INPUTS[4:], 6)
+    base = c.impl('eval', [polls_req(0, [], s, -1) for s in ins])
+    ref = c.impl('eval', [evalseq_req(0, [(s, -1)]) for s in ins])
+    reqs, meta = [], []
+    for s, o, ro in zip(ins, base, ref):
+        if crashed(o) or crashed(ro):
+            c.notes.append('unit input did not complete: %r' % s); continue
+        n = parse_sx(o)[1]
+        u = c09.impl_step(parse_sx(ro)[0])
+        for k in range(0, n + 1):
+            reqs.append(evalseq_req(0, [(s, k)])); meta.append((s, k, u, n))
+    outs = c.impl('eval', reqs)
+    for (s, k, u, n), o in zip(meta, outs):
+        c.note_case('unit:%s:%d' % (s, k), True, 'unit-sweep')
+        if crashed(o):
+            c.violation('interrupted-run-crashed', {'kind': 'impl-crash', 'input': s, 'k': k, 'impl': o[:100]}); continue
+        okf, val, polls, vars_ = c09.impl_step(parse_sx(o)[0])
+        if (not okf) and val == 'Interrupted':
+            if k >= n:
+                c.violation('interrupted-after-last-poll', {'kind': 'impl-vs-spec', 'input': s, 'k': k, 'polls_uninterrupted': n})
+            continue
+        if (okf, val) != (u[0], u[1]):
+            c.violation('interrupt-changed-the-result', {'kind': 'impl-vs-spec', 'input': s, 'k': k, 'setup': [], 'flags': 0, 'got': val, 'uninterrupted': u[1]})
+    c.extra['unit_sweep_cases'] = len(reqs)
 
 
 def run_unpolled_replays(c):
@@ -409,6 +492,8 @@ def check(c):
     run_general_sweeps(c)
     run_poll_minimums(c)
     run_l1_polls(c)
+    run_shift_family(c)
+    run_unit_sweeps(c)
     run_unpolled_replays(c)
     run_preview_sweeps(c)
     c.extra['left_to_runtime'] = ('wall-clock time between polls and after the firing poll; that the skeletons of Cost.v describe the loops (tied by poll counts only); '
